@@ -156,8 +156,11 @@ func (h *ForkableHub) subscribe(handler bstream.Handler, initialBlocks []*bstrea
 	}
 	verifPoint("subscribe:before-append")
 	h.subscribersLock.Lock()
+	verifPoint("subscribe:locked")
 	h.subscribers = append(h.subscribers, sub)
+	verifPoint("subscribe:appended")
 	h.subscribersLock.Unlock()
+	verifPoint("subscribe:unlocked")
 	return sub
 }
 
@@ -353,16 +356,21 @@ func (h *ForkableHub) processBlock(blk *pbbstream.Block, obj interface{}) error 
 	zlog.Debug("process_block", zap.Stringer("blk", blk.AsRef()), zap.Any("obj", obj.(*forkable.ForkableObject).Step()))
 	preprocBlock := &bstream.PreprocessedBlock{Block: blk, Obj: obj}
 
+	verifPoint("processblock:enter")
 	h.subscribersLock.Lock()
 	subscribers := h.subscribers // we may remove some from the original slice during the loop
 	h.subscribersLock.Unlock()
+	verifPoint("processblock:snapshot")
 
 	for _, sub := range subscribers {
+		verifPoint("processblock:before-push")
 		err := sub.push(preprocBlock)
 		if err != nil {
+			verifPoint("processblock:push-failed")
 			h.unsubscribe(sub)
 			sub.Shutdown(err)
 		}
+		verifPoint("processblock:after-push")
 
 	}
 	return nil
